@@ -44,7 +44,17 @@ RULES = {
     "neither, several count-only events in sequence, reads and seeks between events, events mixed with ordinary body chunks, count beyond the end of the file, count 0, at EOF, files "
     "above 64 KiB; last event final or followed by an empty body message; correct Content-Length x 1..3 identity / observing / editing middlewares, view decorators (also below "
     "middlewares), and the same application without the offer; the bare application is compared with a pure-Python reference of the extension's position semantics; also drawn in xstacks",
+    "iterables": "enumerated (WSGI return values; PEP 3333 asks for `an iterable`, and allows start_response to be called by the iterable's first iteration step): raw inner apps "
+    "returning a list / tuple / generator / iterator object of a class of its own (with and without close()) / object whose __iter__ makes a fresh generator (with and without close()) / "
+    "map object / itertools.chain object (also with a further member) / iter(callable, sentinel) / wsgiref FileWrapper over a file-like object x start_response called eagerly before "
+    "the return or lazily in the first next() x {200 without headers, 200 / 404 / 599 with headers, two Set-Cookie lines} x bodies of 0, 1, 3 chunks (one empty) and 2 x 70000 B; a layer of a "
+    "foreign package (harness/x_c20.py `xwrap`) that re-packages the return value of raw apps, views of every response kind, response objects used as apps, Router / Files mounts as map / "
+    "chain / iterator / closing iterator / closing iterable / iter(callable, sentinel) or calls the inner app only when iterated (class with a generator-method __iter__), also two such "
+    "layers; the same failing in the first step / mid-body - x pass-through stacks of depth 1..3 and editing layers; the ASGI side of each recipe runs once (no return values there: the "
+    "foreign layer forwards receive / send); non-trivial = depth >= 1 and, measured on the bare WSGI run, the object handed to the innermost baize layer is neither a generator nor a "
+    "list / tuple and start_response had not been called when it was handed over, and the answer has a status other than 200 or at least one header (or the app fails)",
     "xstacks": "Hypothesis companion of the enumerated sub-checks: raw apps (header lines drawn from all shape blocks, chunks incl. 64 KiB-boundary sizes, omitted ASGI keys), "
+    "raw apps over every return-value shape of `iterables` x eager / lazy start_response, foreign re-packaging layers around raw apps, views and mounted apps, "
     "views of every response class except event streams, mounted apps x 0..2 decorator layers + 0..3 middleware layers with free-form edits x GET / POST / HEAD / DELETE",
 }
 ASSUMPTIONS = [
@@ -282,10 +292,28 @@ def oracle_x(case) -> Result:
     depth = len(layers)
     passthrough = all(ly["edit"]["op"] in PASS_THROUGH for ly in layers)
     nontrivial = False
-    for side in ("wsgi", "asgi"):
+    lazy_seen = lazy_answer = False
+    core_app = inner
+    while core_app["app"] == "xwrap":
+        core_app = core_app["inner"]
+    for side in case.get("sides", ("wsgi", "asgi")):
         bare, bheads, bbuilt = x_run(side, inner, [], rqd)
         wrapped, wheads, wbuilt = x_run(side, inner, layers, rqd)
         ctx = f"{side} inner {inner!r} layers {layers!r} request {rqd!r}"
+        # WSGI: what kind of object the inner application handed back and whether it had called start_response by then (measured
+        # by the raw / foreign applications of x_c20; PEP 3333 allows the call to happen in the first iteration step)
+        ret = getattr(bbuilt, "returned", None) if side == "wsgi" else None
+        if ret is not None:
+            lazy_ng = not ret["generator"] and not ret["sequence"] and not ret["started"]
+            r.label("returns=" + ret["type"], "start=" + ("eager" if ret["started"] else "lazy"), *(["lazy-non-generator"] if lazy_ng else []))
+            if depth >= 1 and ret["closable"] and wrapped.exc is None:
+                # close() of the object the inner application returned (a server calls it once; bare run: checked here).  What
+                # the layers do about it is not part of the property: a label only
+                if getattr(bbuilt, "closes", []).count("outer") != 1:
+                    raise core.HarnessError(f"server model called close() {getattr(bbuilt, 'closes', [])!r} on the bare application's iterable: {ctx}")
+                r.label(f"inner-close-calls-behind-layers={min(getattr(wbuilt, 'closes', []).count('outer'), 2)}")
+            if lazy_ng and depth >= 1:
+                lazy_seen = True
         if inner["app"] == "xraw" and not inner.get("raises"):
             # the bare raw application involves no code under test: it must come out as written in the recipe
             ref = (int(inner["status"][:3]), fold([(k, v) for k, v in inner["headers"]]), x_c20.reference_body(inner))
@@ -320,7 +348,11 @@ def oracle_x(case) -> Result:
             r.label("inner-raises")
             if depth >= 1:
                 nontrivial = True
+            if side == "wsgi":
+                lazy_answer = True
             continue
+        if side == "wsgi" and (bare.status_code != 200 or bheads):
+            lazy_answer = True
         bare_codes = {e[0] for e in bare.errors}
         introduced = [e for e in wrapped.errors if e[0] not in bare_codes]
         if introduced:
@@ -353,7 +385,7 @@ def oracle_x(case) -> Result:
             r.fail(f"C20:{side}:body", f"{ctx}: bare body {bare.body[:60]!r} ({len(bare.body)} bytes), wrapped body {wrapped.body[:60]!r} ({len(wrapped.body)} bytes), first difference at offset {first}")
         nchunks = len([c for c in bare.chunks if c])
         repeated = len({k.lower() for k, _ in bheads}) < len(bheads)
-        if depth >= 1 and (nchunks >= 2 or repeated or bare.status_code != 200 or not passthrough or inner["app"] not in ("xraw", "xview")):
+        if depth >= 1 and (nchunks >= 2 or repeated or bare.status_code != 200 or not passthrough or core_app["app"] not in ("xraw", "xview")):
             nontrivial = True
         if repeated:
             r.label("repeated-header")
@@ -363,9 +395,12 @@ def oracle_x(case) -> Result:
             r.label("body>64KiB")
         if side == "asgi" and bare.zerocopy_events:
             r.label("zerocopy-events-bare")
+    if case.get("nt") == "lazy":
+        # sub-check `iterables`: only what the sub-check is about counts
+        nontrivial = lazy_seen and lazy_answer
     r.nontrivial = nontrivial
-    r.label(f"depth={depth}", f"inner={inner['app']}", *sorted({"edit=" + ly["edit"]["op"] for ly in layers}))
-    r.weight = 4
+    r.label(f"depth={depth}", f"inner={inner['app']}" + (":" + core_app["app"] if core_app is not inner else ""), *sorted({"edit=" + ly["edit"]["op"] for ly in layers}))
+    r.weight = 2 * len(case.get("sides", ("wsgi", "asgi")))
     return r
 
 
@@ -679,12 +714,88 @@ def error_cases():
         yield {"inner": xraw([["X-Inner", "orig"]], [b"one", b"two"], returns="generator", raises="mid"), "layers": layers + [mw("set", name="x-inner", value="replaced")], "request": {"method": "GET"}}
 
 
+_COOKIE_HEADS = [["Content-Type", "text/plain"], ["X-Inner", "orig"], ["Set-Cookie", "a=1; Path=/"], ["Set-Cookie", "b=2"]]
+ITER_ANSWERS = [("200 OK", []), ("200 OK", _COOKIE_HEADS), ("404 Not Found", [["Content-Type", "text/plain"]]), ("599 Custom", _COOKIE_HEADS[1:])]
+ITER_BODIES = [[], [b"one"], [b"hello", b"", b"world"], [{"pat": 70000}, {"pat": 70000}]]
+
+
+def returns_x_start():
+    for returns in x_c20.RETURNS:
+        for start in ("eager",) if returns in x_c20.RETURNS_EAGER_ONLY else ("eager", "lazy"):
+            yield returns, start
+
+
+def _wrap_inners():
+    cookies = [{"name": "sid", "value": "v"}, {"name": "t", "value": "w", "httponly": True}]
+    plain = {"kind": "plain", "content": "hi", "status": 404, "headers": {"x-inner": "orig", "Vary": "Accept"}, "cookies": cookies}
+    yield xraw(_COOKIE_HEADS, [b"a", b"bc"], status="201 Created", returns="generator", start="lazy"), ["/m"]
+    yield xraw(_COOKIE_HEADS, [b"a", b"bc"], status="201 Created", returns="list"), ["/m"]
+    yield xraw([], [], status="204 No Content", returns="iterator-close", start="lazy"), ["/m"]
+    yield {"app": "xview", "response": plain}, ["/m"]
+    yield {"app": "xview", "response": {"kind": "stream", "chunks": [b"a", b"", b"bc"], "headers": {"vary": "Accept"}, "status": 202}}, ["/m"]
+    yield {"app": "xview", "response": {"kind": "file", "size": 64, "name": "f.txt", "chunk": 16, "headers": {"X-Inner": "orig"}}}, ["/m"]
+    yield {"app": "xview", "response": {"kind": "redirect", "url": "/next", "headers": {"X-Inner": "orig"}, "cookies": cookies[:1]}}, ["/m"]
+    yield {"app": "xview", "response": {"kind": "empty", "status": 204}}, ["/m"]
+    yield {"app": "response", "response": plain}, ["/m"]
+    yield {"app": "response", "response": {"kind": "json", "content": {"a": [1, 2]}, "status": 201, "cookies": cookies}}, ["/m"]
+    yield {"app": "echo", "order": ["body"]}, ["/m"]
+    yield MOUNTED["router"][0], ["/plain", "/items/42", "/nowhere"]
+    yield MOUNTED["files"][0], ["/a.txt", "/missing.txt"]
+
+
+def iterable_cases():
+    """What a WSGI application hands back is `an iterable`: PEP 3333 knows nothing of generators, and start_response may
+    be called as late as in the iterable's first iteration step."""
+    edit = mw("set", name="x-mw", value="1")
+    stacks = IDENTITY_STACKS + [[edit], [mw(), mw("cookie", name="mw_c", value="1"), mw("observe")]]
+    for case in _iterable_cases(edit, stacks):
+        # "returns", "start" and the re-packaging of a foreign layer exist on WSGI only: the ASGI side of a recipe is the same
+        # for all their values and runs once (with the first value)
+        i = case["inner"]
+        first = i["how"] == x_c20.WRAP_HOWS[0] and i["inner"].get("how", x_c20.WRAP_HOWS[0]) == x_c20.WRAP_HOWS[0] if i["app"] == "xwrap" else (i["returns"], i["start"]) == ("list", "eager")
+        case["sides"] = ["wsgi", "asgi"] if first else ["wsgi"]
+        yield case
+
+
+def _iterable_cases(edit, stacks):
+    for returns, start in returns_x_start():
+        for status, heads in ITER_ANSWERS:
+            for chunks in ITER_BODIES:
+                big = any(isinstance(c, dict) for c in chunks)
+                for layers in stacks[:2] if big else stacks:
+                    yield {"inner": xraw(heads, chunks, status=status, returns=returns, start=start), "layers": layers, "request": {"method": "GET"}, "nt": "lazy"}
+        # methods the layers have no opinion on
+        for method in ("HEAD", "POST", "DELETE"):
+            yield {"inner": xraw(_COOKIE_HEADS, [b"a", b"bc"], status="201 Created", returns=returns, start=start), "layers": [mw()], "request": {"method": method}, "nt": "lazy"}
+        # the application fails in the first iteration step (a lazy one: before it has called start_response) or mid-body
+        for raises in ("first", "mid"):
+            for chunks in ([b"one"], [b"one", b"two", b"three"]):
+                for layers in ([mw()], [mw(), mw("observe")], [edit]):
+                    yield {"inner": xraw(_COOKIE_HEADS, chunks, status="202 Accepted", returns=returns, start=start, raises=raises), "layers": layers, "request": {"method": "GET"}, "nt": "lazy"}
+    # a layer of a foreign package between the baize layers and the application
+    for inner, paths in _wrap_inners():
+        for how in x_c20.WRAP_HOWS:
+            for path in paths:
+                for layers in stacks[:1] + stacks[3:] if len(paths) > 1 else stacks:
+                    rq = {"method": "GET", "path": path}
+                    if inner["app"] == "echo":
+                        rq = {"method": "POST", "path": path, "headers": [["Content-Type", "application/json"]], "body": [b'{"a": ', b"1}"]}
+                    yield {"inner": {"app": "xwrap", "how": how, "inner": inner}, "layers": layers, "request": rq, "nt": "lazy"}
+    # two foreign layers
+    for inner, paths in list(_wrap_inners())[:4]:
+        for how1, how2 in (("map", "map"), ("map", "deferred-call"), ("deferred-call", "chain"), ("iterator-close", "iterable-close"), ("callable-iter", "map")):
+            for layers in stacks[:2]:
+                yield {"inner": {"app": "xwrap", "how": how2, "inner": {"app": "xwrap", "how": how1, "inner": inner}}, "layers": layers, "request": {"method": "GET", "path": paths[0]}, "nt": "lazy"}
+
+
 @st.composite
 def x_case(draw):
     """Random companion of the enumerated sub-checks: raw / view / mounted inner applications x layer stacks of
     depth 0..3 with free-form edits."""
     kind = draw(st.sampled_from(["xraw", "xraw", "xview", "mounted"]))
     rq = {"method": draw(st.sampled_from(["GET", "GET", "POST", "HEAD", "DELETE"]))}
+    # a foreign layer (or two) that re-packages what the application returns (WSGI; a forwarding wrapper on ASGI)
+    hows = draw(st.lists(st.sampled_from(x_c20.WRAP_HOWS), max_size=2)) if draw(st.integers(0, 3)) == 0 else []
     if kind == "xraw" and draw(st.integers(0, 3)) == 0:
         spec = draw(zc_ops())
         view = draw(st.booleans())
@@ -697,7 +808,8 @@ def x_case(draw):
     elif kind == "xraw":
         heads = draw(st.lists(st.sampled_from([h for hs in SHAPE_HEADERS.values() for h in hs] + [["Content-Type", "text/plain"], ["X-Inner", "orig"], ["x-inner", "lower"], ["Vary", "Accept"]]), max_size=6))
         chunks = draw(st.lists(st.one_of(st.sampled_from([b"", b"hello", b"\x00\xff"]), st.sampled_from([1, 65535, 65536, 65537, 131072]).map(lambda n: {"pat": n})), max_size=3))
-        inner = xraw(heads, chunks, status=draw(st.sampled_from(["200 OK", "201 Created", "404 Not Found", "599 Custom", "204 No Content"])), returns=draw(st.sampled_from(["list", "generator"])),
+        returns, start = draw(st.sampled_from([("list", "eager"), ("generator", "eager")] + list(returns_x_start())))
+        inner = xraw(heads, chunks, status=draw(st.sampled_from(["200 OK", "201 Created", "404 Not Found", "599 Custom", "204 No Content"])), returns=returns, start=start,
                      omit=draw(st.lists(st.sampled_from(["body", "more_body", "headers"]), unique=True, max_size=3)), header_items=draw(st.sampled_from(["tuple", "list"])))
     elif kind == "xview":
         rr = draw(gen.response_recipes(kinds=("empty", "plain", "html", "json", "redirect", "stream", "file")))
@@ -730,13 +842,15 @@ def x_case(draw):
         return e
 
     layers = []
-    if kind == "xview":
+    for how in hows:
+        inner = {"app": "xwrap", "how": how, "inner": inner}
+    if kind == "xview" and not hows:
         layers += [{"layer": "decorator", "edit": edit(names_any)} for _ in range(draw(st.sampled_from([0, 0, 1, 2])))]
     layers += [{"layer": "middleware", "edit": edit(names_mw)} for _ in range(draw(st.sampled_from([0, 1, 1, 2, 3])))]
     return {"inner": inner, "layers": layers, "request": rq}
 
 
-SUBS = {"stacks": oracle, "grid": oracle, "zerocopy": oracle_x, "zcraw": oracle_x, "shapes": oracle_x, "edits": oracle_x, "mounted": oracle_x, "errors": oracle_x, "xstacks": oracle_x}
+SUBS = {"stacks": oracle, "grid": oracle, "zerocopy": oracle_x, "zcraw": oracle_x, "shapes": oracle_x, "edits": oracle_x, "mounted": oracle_x, "errors": oracle_x, "iterables": oracle_x, "xstacks": oracle_x}
 
 
 _raw_headers = st.lists(
@@ -821,7 +935,7 @@ def run(rec, only=None):
     quick = rec.tier == "quick"
     core.drive_cases(rec, "grid", grid_cases(), oracle)
     rec.exhaustive["grid"] = True
-    for sub, cases in (("shapes", shape_cases(quick)), ("edits", edit_cases()), ("mounted", mounted_cases()), ("errors", error_cases()), ("zerocopy", zerocopy_cases(quick)), ("zcraw", zcraw_cases(quick))):
+    for sub, cases in (("shapes", shape_cases(quick)), ("edits", edit_cases()), ("mounted", mounted_cases()), ("errors", error_cases()), ("iterables", iterable_cases()), ("zerocopy", zerocopy_cases(quick)), ("zcraw", zcraw_cases(quick))):
         core.drive_cases(rec, sub, cases, oracle_x)
         rec.exhaustive[sub] = True
     core.drive_cases(rec, "edits", edit_range_cases(), oracle_x)
